@@ -34,8 +34,13 @@ def local_names(t, ev):
     return t
 
 
+# the parser functions that make up the recursive-descent schema (everything else in `impl Parser` is a helper that
+# is inlined before a function is summarised)
+SCHEMA_FNS = {"get_next_token", "generate_ast", "function_static_arguments", "function_arguments", "find_item_list", "check_paren",
+              "get_enclosed_elements_with_impl_mult", "implicit_multiply", "convert_token_to_node", "parse_number", "parse", "new"}
+
 # helpers the rules know by name (compared as functions in their own right: C10, C11)
-NAMED_HELPERS = {"gcd", "lcm", "gamma", "lambert_w", "ilog"}
+NAMED_HELPERS = {"eval_i64": {"gcd", "lcm"}, "eval_f64": {"gamma"}, "eval_number": {"gamma"}, "eval_decimal": {"gamma", "lambert_w", "ilog"}, "eval_complex": set()}
 
 
 def freshen(t, k):
@@ -60,12 +65,125 @@ class EvTables:
         self.issues.append({"table": table, "where": where, "detail": detail})
 
     def fn(self, suffix):
-        """Find the crate fn of this evaluator whose key ends with suffix."""
+        """Find the crate fn of this evaluator whose key ends with suffix (schema functions: by role, see roles())."""
+        m_ = re.match(r"^::parser::Parser::(\w+)$", suffix)
+        if m_ and m_.group(1) in SCHEMA_FNS and not self._cache.get("roles_busy"):
+            r = self.roles().get(m_.group(1))
+            if r is not None:
+                return r
+        if suffix == "::token::Token::get_oper_prec" and not self._cache.get("roles_busy"):
+            r = self.roles().get("get_oper_prec")
+            if r is not None:
+                return r
+        return self._fn_by_suffix(suffix)
+
+    def _fn_by_suffix(self, suffix):
         cands = [f for k, f in self.F.by_key.items() if f.evaluator == self.ev and k.endswith(suffix) and f.kind != "Closure"]
         if not cands:
             return None
         cands.sort(key=lambda f: len(f.key))
         return cands[0]
+
+    def roles(self):
+        """schema role -> function.  A role is found by its conventional name; if that name is gone (the function
+        was renamed), by its signature and its place in the call structure of `impl Parser`:
+          get_next_token (&mut self) -> Result<()>  calling Tokenizer::next;   check_paren (&mut self, Token) -> Result<()>
+          generate_ast (&mut self, Category) -> Result<Node>;   parse_number (&mut self) -> Result<Node>, first call of generate_ast
+          convert_token_to_node (&mut self, Node) -> Result<Node> called in generate_ast;  implicit_multiply: the other one
+          function_static_arguments (&mut self, int) -> Result<Vec<Node>>;  function_arguments (&mut self) -> Result<Vec<Node>>
+          find_item_list (&mut self, Token, Token, Category, ..);  get_enclosed_.. (&mut self, Category, Token, fn(Node)->Node)
+          parse: the public (&mut self) -> Result<Node>;  Token::get_oper_prec (&Token) -> Category"""
+        if "roles" in self._cache:
+            return self._cache["roles"]
+        self._cache["roles_busy"] = True
+        try:
+            out = {}
+            ms = [f for f in self.F.fns if f.evaluator == self.ev and re.search(r"::parser::Parser::\w+$", f.key) and f.kind != "Closure" and f.thir and not f.derived]
+            byname = {f.key.split("::")[-1]: f for f in ms}
+
+            def sig(f):
+                ins = [p[2] for p in T.param_ids(f)]
+                return ins, f.j.get("output") or ""
+            cat_ty = None
+            tk = [f for f in self.F.fns if f.evaluator == self.ev and re.search(r"::token::Token::\w+$", f.key) and f.thir and not f.derived and f.kind != "Closure"]
+            gp = next((f for f in tk if f.key.endswith("::get_oper_prec")), None)
+            if gp is None:
+                c = [f for f in tk if len(T.param_ids(f)) == 1 and "utils::" in (f.j.get("output") or "") and not (f.j.get("output") or "").startswith("std::")]
+                gp = c[0] if len(c) == 1 else None
+            if gp is not None:
+                out["get_oper_prec"] = gp
+                cat_ty = gp.j.get("output")
+            node_ty = "%s::ast::Node" % self.ev
+            tok_ty = "%s::token::Token" % self.ev
+            R = lambda x: "std::result::Result<%s, utils::parse_error::ParseError>" % x
+
+            def pick(name, pred, among=None):
+                if name in byname:
+                    out[name] = byname[name]
+                    return
+                c = [f for f in (among if among is not None else ms) if f.key.split("::")[-1] not in SCHEMA_FNS and pred(f) and f not in out.values()]
+                if len(c) == 1:
+                    out[name] = c[0]
+            def calls(f):
+                t = self._raw_calls(f)
+                return t
+            pick("new", lambda f: False)
+            pick("parse", lambda f: f.j.get("public") and sig(f)[1] == R(node_ty) and len(sig(f)[0]) == 1)
+            pick("get_next_token", lambda f: len(sig(f)[0]) == 1 and sig(f)[1] == R("()"))
+            pick("check_paren", lambda f: sig(f)[0][1:] == [tok_ty] and sig(f)[1] == R("()"))
+            pick("generate_ast", lambda f: cat_ty and sig(f)[0][1:] == [cat_ty] and sig(f)[1] == R(node_ty))
+            ga = out.get("generate_ast")
+            ga_calls = calls(ga) if ga is not None else []
+            pick("parse_number", lambda f: len(sig(f)[0]) == 1 and sig(f)[1] == R(node_ty) and not f.j.get("public") and f.path in ga_calls)
+            pick("convert_token_to_node", lambda f: sig(f)[0][1:] == [node_ty] and sig(f)[1] == R(node_ty) and f.path in ga_calls)
+            pick("implicit_multiply", lambda f: sig(f)[0][1:] == [node_ty] and sig(f)[1] == R(node_ty) and f.path not in ga_calls)
+            pick("function_static_arguments", lambda f: len(sig(f)[0]) == 2 and sig(f)[0][1] in ("i32", "usize", "u32", "i64", "u8") and sig(f)[1] == R("std::vec::Vec<%s>" % node_ty))
+            pick("function_arguments", lambda f: len(sig(f)[0]) == 1 and sig(f)[1] == R("std::vec::Vec<%s>" % node_ty))
+            pick("find_item_list", lambda f: len(sig(f)[0]) >= 4 and sig(f)[0][1:3] == [tok_ty, tok_ty])
+            pick("get_enclosed_elements_with_impl_mult", lambda f: cat_ty and len(sig(f)[0]) == 4 and sig(f)[0][1] == cat_ty and sig(f)[0][2] == tok_ty)
+            self._cache["roles"] = out
+            ren = {}
+            for canon, f in out.items():
+                actual = f.key.split("::")[-1]
+                if actual != canon:
+                    ren[("Token." if canon == "get_oper_prec" else "P.") + actual] = ("Token." if canon == "get_oper_prec" else "P.") + canon
+            self._cache["rename"] = ren
+            return out
+        finally:
+            self._cache["roles_busy"] = False
+
+    def _raw_calls(self, f):
+        """paths of the crate functions called in f (resolved callees of the THIR call expressions)"""
+        out = []
+
+        def w(e):
+            if isinstance(e, dict):
+                if e.get("k") == "call" and e.get("fn"):
+                    fj = e["fn"]
+                    out.append(fj.get("inst") or fj.get("def") or "")
+                for v in e.values():
+                    w(v)
+            elif isinstance(e, list):
+                for v in e:
+                    w(v)
+        w(f.thir)
+        return out
+
+    def local(self, t):
+        """shorten crate-local names and give renamed schema functions their canonical names"""
+        t = local_names(t, self.ev)
+        self.roles()
+        ren = self._cache.get("rename") or {}
+        if not ren:
+            return t
+
+        def r(x):
+            if isinstance(x, tuple):
+                return tuple(r(y) for y in x)
+            if isinstance(x, str) and x in ren:
+                return ren[x]
+            return x
+        return r(t)
 
     def fn_term(self, f, inline_pure=False, eval_fn=None):
         key = (f.path, inline_pure, eval_fn)
@@ -77,7 +195,7 @@ class EvTables:
             if vid is not None:
                 ctx.env[vid] = ("param", nm)
         t = T.alpha(T.normalise(self.TR.term(body, ctx)))
-        t = local_names(t, self.ev)
+        t = self.local(t)
         self._cache[key] = t
         return t
 
@@ -138,8 +256,13 @@ class EvTables:
             for i, (vid, nm, orig) in enumerate(binders):
                 ctx.env[vid] = ("C%d" % i,)
             t = T.alpha(T.strip_tail_returns(T.normalise(self.TR.term(a["body"], ctx))))
-            t = local_names(t, self.ev)
-            t = T.alpha(T.normalise(self.inline_helpers(t)))
+            t = self.local(t)
+            t = self.canon_result(t)
+            for _ in range(4):
+                t2 = self.canon_result(self.inline_tail(self.inline_helpers(t)))
+                if t2 == t:
+                    break
+                t = t2
             names = self.arm_ctor_names(a["pat"])
             if not names:
                 self.issue("T_eval", f.key, "arm pattern is not a plain Node constructor: %s" % T.show(p))
@@ -157,7 +280,11 @@ class EvTables:
         if name.startswith("Ast."):
             return self.fn("::ast::" + name[4:])
         if name.startswith("Token."):
+            if name[6:] in ("get_oper_prec",):
+                return None     # the token -> category table is read as a table (prec_table), not inlined
             return self.fn("::token::Token::" + name[6:])
+        if name.startswith("P.") and getattr(self, "_inline_parser", False) and name[2:] not in SCHEMA_FNS:
+            return self.fn("::parser::Parser::" + name[2:])
         if name.startswith(("P.", "Lex.")):
             return None
         if name.startswith("utils."):
@@ -167,6 +294,64 @@ class EvTables:
         if f is not None and f.kind != "Closure" and (f.evaluator == self.ev or f.key.startswith("utils::")):
             return f
         return None
+
+    def parser_term(self, f):
+        """term of a parser function with the non-schema helper methods (and Token predicates, utils helpers) inlined"""
+        key = ("parser_term", f.path)
+        if key in self._cache:
+            return self._cache[key]
+        t = self.fn_term(f)
+        self._inline_parser = True
+        try:
+            for _ in range(4):
+                t2 = self.inline_helpers(t)
+                if self._returns_result(f):
+                    t2 = self.inline_tail(t2)
+                t2 = T.alpha(T.normalise(self.beta_all(t2)))
+                if t2 == t:
+                    break
+                t = t2
+        finally:
+            self._inline_parser = False
+        self._cache[key] = t
+        return t
+
+    def rec_names(self):
+        wn = self.eval_names()
+        wn = wn if isinstance(wn, tuple) else ((wn,) if wn else ())
+        return set(wn) | {"Ast." + p_.split("::")[-1] for p_ in wn}
+
+    def canon_result(self, t):
+        """tail-position Result combinators, recursive calls and function values in canonical form"""
+        rn = self.rec_names()
+        for _ in range(3):
+            t2 = T.alpha(T.normalise(self.beta_all(T.mark_ev(T.monad_tail(T.strip_tail_returns(t), rn), rn))))
+            if t2 == t:
+                break
+            t = t2
+        return t
+
+    def beta_all(self, t):
+        if isinstance(t, tuple):
+            return self.beta(tuple(self.beta_all(x) for x in t))
+        return t
+
+    def inline_tail(self, t, depth=0):
+        """like inline_helpers, for a call in tail position: a `return` inside the helper is then a return of the
+        caller, so helpers with early returns inside loops can be inlined too"""
+        if not isinstance(t, tuple) or not t or depth > 4:
+            return t
+        if t[0] == "seq":
+            return t[:-1] + (self.inline_tail(t[-1], depth),)
+        if t[0] == "if" and len(t) == 4:
+            return ("if", t[1], self.inline_tail(t[2], depth), self.inline_tail(t[3], depth))
+        if t[0] == "match":
+            return t[:2] + tuple(a[:-1] + (self.inline_tail(a[-1], depth),) for a in t[2:])
+        if t[0] == "call":
+            r = self._inline_call(t, depth, (), allow_returns=True)
+            if r is not None:
+                return self.inline_tail(self.canon_result(r), depth + 1)
+        return t
 
     def inline_helpers(self, t, depth=0, stack=()):
         """Inline calls to non-recursive crate-local helper functions (free functions of the ast module or any
@@ -178,21 +363,55 @@ class EvTables:
             return t
         t = tuple(self.inline_helpers(x, depth, stack) for x in t)
         t = self.beta(t)
+        r = self._inline_call(t, depth, stack)
+        if r is not None:
+            return self.inline_helpers(r, depth + 1, stack + (self._last_inlined,))
+        return t
+
+    def _inline_call(self, t, depth, stack, allow_returns=False):
         if len(t) >= 2 and t[0] == "call" and isinstance(t[1], str):
             f = self.resolve_local(t[1])
             ef = self.eval_fn()
-            if f is not None and not f.derived and f.thir and (ef is None or f.path not in self._cache.get("walker_names", ())) and f.short not in NAMED_HELPERS and f.path not in stack \
+            if f is not None and not f.derived and f.thir and (ef is None or f.path not in self._cache.get("walker_names", ())) and f.short not in NAMED_HELPERS.get(self.ev, ()) and f.path not in stack \
                     and not f.j.get("impl_trait"):
-                body = self.fn_term(f, inline_pure=True, eval_fn=self.eval_names() if ef else None)
-                body = T.strip_tail_returns(body)
+                # parser methods mutate `self`: bindings that read it must stay where they are (no let-inlining)
+                body = self.fn_term(f, inline_pure=not t[1].startswith("P."), eval_fn=self.eval_names() if ef else None)
+                body = self.canon_result(body) if self._returns_result(f) else T.strip_tail_returns(body)
                 params = [nm for (_, nm, _) in T.param_ids(f)]
                 rets = [s_ for s_ in subterms(body) if isinstance(s_, tuple) and s_ and s_[0] == "return" and s_ != ("return", ("Err",))]
-                if not rets and T.term_size(body) <= 900 and len(params) == len(t) - 2 and all(params):
+                if (allow_returns or not rets) and T.term_size(body) <= 900 and len(params) == len(t) - 2 and all(params):
                     self._fresh = getattr(self, "_fresh", 0) + 1
                     body = freshen(body, self._fresh)
-                    inl = T.subst_params(body, dict(zip(params, t[2:])))
-                    return self.inline_helpers(T.normalise(inl), depth + 1, stack + (f.path,))
-        return t
+                    mapping, lets = {}, []
+                    for i_, (pn, arg) in enumerate(zip(params, t[2:])):
+                        uses = sum(1 for s_ in subterms(body) if s_ == ("param", pn))
+                        assigned = any(isinstance(s_, tuple) and ((len(s_) == 3 and s_[0] == "set" and s_[1] == ("param", pn)) or (len(s_) == 5 and s_[0] == "setop" and s_[3] == ("param", pn))) for s_ in subterms(body))
+                        trivial = not isinstance(arg, tuple) or arg[0] in ("var", "param", "lit", "const", "fnref", "lambda", "ctor") and T.term_size(arg) <= 3 or (len(arg) == 1)
+                        if assigned:
+                            nm = "m%d" % (1000 * self._fresh + 900 + i_)      # `mut` parameter: a mutable local initialised with the argument
+                            lets.append(("let", nm, arg))
+                            mapping[pn] = ("var", nm)
+                        elif uses > 1 and not trivial and (T._reads_mutable(arg) or any(T.is_effect_call(s_) for s_ in subterms(arg))):
+                            # the argument is evaluated once, before the body (as in the call)
+                            nm = "v%d" % (1000 * self._fresh + 900 + i_)
+                            lets.append(("let", nm, arg))
+                            mapping[pn] = ("var", nm)
+                        else:
+                            mapping[pn] = arg
+                    inl = T.subst_params(body, mapping)
+                    if lets:
+                        inl = ("seq",) + tuple(lets) + (inl,)
+                    self._last_inlined = f.path
+                    if not hasattr(self, "_inlined_paths"):
+                        self._inlined_paths = set()
+                    self._inlined_paths.add(f.path)
+                    return T.normalise(inl)
+        return None
+
+
+    def _returns_result(self, f):
+        ty = f.j.get("output") or ""
+        return isinstance(ty, str) and ty.startswith("std::result::Result")
 
     def beta(self, t):
         """(f)(args) for a known f: function item, tuple-variant constructor or closure"""
@@ -350,7 +569,12 @@ def classify_effect(c):
     return ("call", name) + tuple(args)
 
 
+SELF_CUR = ("field", ("param", "self"), "current_token")
+
+
 def cat_name(t):
+    if t == ("curcat",):
+        return "curcat"
     e = M("(ctor ?c)", t)
     if e is not None and isinstance(e["?c"], str) and e["?c"].startswith("OperatorCategory::"):
         return e["?c"].split("::")[1]
@@ -386,6 +610,7 @@ def summarise(t):
     env = {}
     events = []
     counter = [0]
+    outer_effects = [False]
 
     def eff_of(x):
         """x is (try (call P..)) or (call P..): returns (event, tried)"""
@@ -418,6 +643,14 @@ def summarise(t):
 
     def sub(x):
         # summarise a branch with the current environment visible
+        saved_outer = outer_effects[0]
+        outer_effects[0] = outer_effects[0] or any(e_[0] not in ("branch", "cond", "stmt") for e_ in events)
+        try:
+            return sub_(x)
+        finally:
+            outer_effects[0] = saved_outer
+
+    def sub_(x):
         saved_events = list(events)
         saved_counter = counter[0]
         saved_env = dict(env)
@@ -454,6 +687,10 @@ def summarise(t):
                     continue
                 if isinstance(init, tuple) and init and init[0] == "try" and isinstance(init[1], tuple) and init[1][0] == "var":
                     env[name] = subst_vars(init[1], env)
+                    continue
+                if init == ("call", "Token.get_oper_prec", SELF_CUR) and not any(e_[0] not in ("branch", "cond", "stmt") for e_ in events) and not outer_effects[0]:
+                    # the category of the token the arm was selected by, read before anything is consumed
+                    env[name] = ("curcat",)
                     continue
                 env[name] = subst_vars(init, env)
                 continue
